@@ -21,6 +21,8 @@ from ..core.util import import_vsc
 # ------------------------------------------------------------------------------------------------
 # rendering
 def type_src(t):
+    if t["kind"] == "obj":
+        return "%s()" % t["cls"]
     if t["kind"] == "enum":
         return "vsc.enum_t(%s)" % t["enum"]
     return "vsc.%s_t(%d)" % ("int" if t["kind"] == "int" else "bit", t["w"])
@@ -129,11 +131,11 @@ def enums_source(enums):
     return "\n".join(out)
 
 
-def build(cgs, enums=None):
+def build(cgs, enums=None, prelude=""):
     """exec the source of the covergroup classes -> namespace"""
     import enum as _enum
     vsc = import_vsc()
-    src = enums_source(enums) + "\n".join(cg_source(c) for c in cgs)
+    src = enums_source(enums) + prelude + "\n".join(cg_source(c) for c in cgs)
     ns = {"vsc": vsc, "enum": _enum, "BOOM": [False]}
     exec(compile(src, "<pvs-cov>", "exec"), ns)
     ns["__source__"] = src
